@@ -237,7 +237,8 @@ def compile_forms(
             cffi_libraries,
             visualise=visualise,
         )
-    except Exception as e:
+    except BaseException as e:
+        # (also UFL's ComplexComparisonError, which is not an Exception)
         try:
             # remove c file so that it will not timeout next time
             c_filename = cache_dir.joinpath(module_name + ".c")
@@ -318,7 +319,8 @@ def compile_expressions(
             cffi_libraries,
             visualise=visualise,
         )
-    except Exception as e:
+    except BaseException as e:
+        # (also UFL's ComplexComparisonError, which is not an Exception)
         try:
             # remove c file so that it will not timeout next time
             c_filename = cache_dir.joinpath(module_name + ".c")
